@@ -3,6 +3,7 @@
 // QXmppStanza::parse/extensionsToXml (QXmppStanza.cpp), operator&(SceMode,SceMode) (QXmppGlobal.h), QXmppFallback (QXmppMessage.cpp).
 // Trees: QXmlStreamWriter/QDom tree model (models/qt_dom.c).  Other classes' sub-codecs: one-element stand-ins (c17_env.h).
 #include "c17_env.h"
+#include "StringLiterals.h"
 #include "vp_harness.h"
 #include "vp_dom.h"
 
@@ -40,8 +41,18 @@ struct C17Trees {
     QDomElement pub, sens, all;
 };
 
+// The u"..."_s literals of qxmpp are function-local statics that are filled on first use.  A first use under a guard that is
+// symbolic for the solver would leave the literal's characters an if-then-else; using each one once here (concrete control flow)
+// keeps them constants.  Pure performance measure: no effect on values.
+static void c17_warm()
+{
+    (void)u"id"_s; (void)u"type"_s; (void)u"stamp"_s; (void)u"jid"_s; (void)u"to"_s; (void)u"by"_s; (void)u"thread"_s; (void)u"reason"_s;
+    (void)u"password"_s; (void)u"parent"_s; (void)u"nick"_s; (void)u"namespace"_s; (void)u"name"_s; (void)u"start"_s; (void)u"end"_s;
+    (void)u"for"_s; (void)u"from"_s; (void)u"lang"_s; (void)u"code"_s; (void)u"body"_s; (void)u"desc"_s; (void)u"yyyyMMddThh:mm:ss"_s;
+}
 static void c17_base(QXmppMessage &m)
 {
+    c17_warm();
     m.setId(c17Str(1));
     m.setTo(c17Str(1));
 }
